@@ -308,3 +308,15 @@ func (r *Run) Finish() int {
 		r.Property, r.Tier, r.Evaluations.Load(), len(r.distinct), r.States.Load(), r.Transitions.Load(), r.exhaustive, unknownViolations, len(knownHit), wall)
 	return exit
 }
+
+// JournalPath is where a check notes the request in flight (write-ahead), so that a parent process
+// can attribute a crash.
+func JournalPath(property string) string {
+	return filepath.Join(VerifDir, ".bin", "journal-"+property+".txt")
+}
+
+// Journal overwrites the journal with the request about to be issued.
+func Journal(property, what string) {
+	_ = os.MkdirAll(filepath.Join(VerifDir, ".bin"), 0o755)
+	_ = os.WriteFile(JournalPath(property), []byte(what), 0o644)
+}
